@@ -51,7 +51,9 @@ CLAIMS = {
          "while another signal is being registered; TLC validates the chained handler's call log (once, first, same "
          "convention, same info pointer) against V_C04; on x86-64 the first registration over a foreign handler runs under "
          "the trap flag and the signal itself is delivered (by the kernel) at every one of its ~5000 instruction "
-         "boundaries: whoever handles it, the foreign handler runs exactly once with its own convention (TraceStep.tla)",
+         "boundaries: whoever handles it, the foreign handler runs exactly once with its own convention (TraceStep.tla); "
+         "FallbackProof.tla carries a TLAPS proof (38 obligations, re-checked) that every delivery reaching the "
+         "dispatcher finds the previous handler in the slot or the race fallback, for any number of signals and deliveries",
          "7.C04", "exhaustive schedule enumeration of real code + TLC trace validation"),
  "C05": ("model_checking",
          "sequential and concurrent histories over register/unregister(live|stale)/unregister_signal/deliver on the "
@@ -102,7 +104,8 @@ CLAIMS = {
  "C11": ("model_checking",
          "close() from one or two handles at every scheduling point of poll_signal / wait / forever, with concurrent "
          "deliveries; TLC validates: closed flag sticky on every load, PollResult::Pending only if the callback was "
-         "consulted in that call and said no, nobody stays blocked after close (scheduler deadlock report); adapter "
+         "consulted in that call and said no, nobody stays blocked after close (scheduler deadlock report); CloseProof.tla "
+         "carries a TLAPS proof (42 obligations, re-checked) of close-unblocks for any number of threads; adapter "
          "histories (tokio, async-std): a task parked on poll_next is woken by close(), then the stream ends and "
          "stays ended (AsyncOps.tla)",
          "7.C11", "exhaustive schedule enumeration of real code + TLC trace validation"),
@@ -112,7 +115,8 @@ CLAIMS = {
          "action, a leak sweep of the registry and the wait status; TLC validates each record against SignalsOps.tla "
          "(rejected add = no-op, later adds normal, never abort, drop unregisters exactly its own); scheduler scenarios "
          "with add_signal racing deliveries are validated against TraceIteratorAbs (mutex never poisoned); the instance and "
-         "a handle dropped simultaneously on two real threads, thousands of times, must leave nothing registered",
+         "a handle dropped simultaneously on two real threads, thousands of times, must leave nothing registered; "
+         "Delivery.tla (TLC) and DeliveryProof.tla (TLAPS, 32 obligations) for add_signal under the id table's lock",
          "7.C12", "history probes of real code + TLC trace validation against sequential TLA+ model"),
  "C13": ("model_checking",
          "forked probes with real pipes / stream / datagram sockets, blocking and not, empty / partly filled / completely "
